@@ -151,6 +151,13 @@ class ARMA:
             temp = np.zeros(len(self.ma_poly) - len(self.ar_poly))
             self.ar_poly = np.hstack((self.ar_poly, temp))
 
+        # === likewise pad ma_poly: scipy.signal's dimpulse and dlsim read
+        # the two arrays as polynomials in z, so unequal lengths would
+        # delay the response by the difference of the orders === #
+        if len(self.ma_poly) < len(self.ar_poly):
+            temp = np.zeros(len(self.ar_poly) - len(self.ma_poly))
+            self.ma_poly = np.hstack((self.ma_poly, temp))
+
     def impulse_response(self, impulse_length=30):
         """
         Get the impulse response corresponding to our model.
